@@ -3296,6 +3296,7 @@ class QapRun:
                  "PrivValFxp": lambda v: rt.PrivVal(int(v)), "PubValFxp": lambda v: rt.PubVal(int(v)),
                  "Array": importlib.import_module("pysnark.array").Array, "ConstVal": rt.ConstVal,
                  "subqap": b.subqap, "exportcomm": b.exportcomm, "__zero__": rt.ConstVal(0),
+                 "PackIntMod": importlib.import_module("pysnark.pack").PackIntMod,
                  "__set_res__": lambda r: None, "__set_bl__": lambda bl: setattr(rt, "bitlength", bl),
                  "importcomm": b.importcomm, "__inputs__": self.inputs,
                  "__step__": lambda *a: None, "__enter__": lambda *a: None, "__leave__": lambda *a: None,
